@@ -801,6 +801,12 @@ impl Sim {
         }
     }
 
+    /// Counts an operation that this Sim does not execute (the uninterrupted twin of a reopen),
+    /// so that everything derived from the position in the history stays the same in both.
+    pub fn skip(&mut self) {
+        self.step_no += 1;
+    }
+
     pub fn step(&mut self, op: &Op) -> StepObs {
         self.step_no += 1;
         let nc = self.world.clients.len();
